@@ -435,6 +435,8 @@ def run(chk):
                    (asan, zcases, 90, ASAN_ENV, None)]
         vg = memcheck_wrapper()
         vcases = [c for c in mut_cases if over_declared(c["m"]["kind"])]
+        if len(vcases) > 12000:     # thorough tier: a seeded sample keeps the valgrind pass at a few CPU minutes
+            vcases = sorted(rng.sample(vcases, 12000), key=key)
         if vg:
             batches.append((std, vcases, 600, MEMCHECK_ENV, vg))
         else:
@@ -503,6 +505,9 @@ def run(chk):
         "RLIMIT_AS 6 GB) is classified as `resource` and accepted as a rejection in the byte-level part (Total), not in the structured part",
         "termination by a FEAT message (XASSERT / XABORTM: '>>> FATAL ERROR: ...', e.g. 'Facet 2 is shared by cells 1, 3 and again by 3' for a "
         "non-manifold SurfaceMesh triangulation) counts as a report (DESIGN 3.3) in the byte-level part and for truncated graph buffers",
+        "stores executed inside libstdc++ (operator>> of String::parse) are not ASan-instrumented: the mutations with more entries than declared "
+        "(dup_data, dup_block, count, chart_count, token_count; thorough: a seeded sample of 12000) are additionally replayed in the plain build "
+        "under valgrind memcheck (address errors only); without valgrind on the machine this pass is skipped and reported in `memcheck_cases`",
         "Permutation has no serialisation API in the pinned tree; CGALSurfaceMesh charts (third-party CGAL, created from an .off file by the "
         "application, no mesh file markup) are not covered",
         "every structured mutation (mesh file, PropertyMap, graph) and every byte-level mutant is replayed in the ASan+UBSan build: a sanitizer "
